@@ -693,7 +693,7 @@ fn gen_sched_case(seed: u64, _tier: Tier) -> Case {
 			tps: *rng.pick(&[37.3, 111.7, 13.9, 250.3]),
 			callbacks: (0..n_cb).map(|_| rng.urange(1, 40)).collect(),
 			reads: rng.urange(4, 14),
-			switch_prob: *rng.pick(&[0.15, 0.4, 0.8]),
+			switch_prob: *rng.pick(&[0.04, 0.15, 0.4, 0.8]),
 			schedule: None,
 		}),
 		sched2: None,
